@@ -106,7 +106,7 @@ func check(c Case) error {
 			if hf, errf := seqhash.Hash(c.FoldAs, c.Type, c.Circ, c.DS); errf == nil && hf == h {
 				return nil // read as a case variant of an alphabet letter
 			}
-			return vk.Errf("Hash(%q, %q, circular=%v, doubleStranded=%v) = %q: a letter outside the alphabet is neither rejected nor read as its case-folding partner %q", s, c.Type, c.Circ, c.DS, h, c.FoldAs)
+			return vk.Errf("Hash(%q, %q, circular=%v, doubleStranded=%v) = %q: a letter outside the alphabet is neither rejected nor is the input read as %q (the same with the letter's case-folding partner, or without the white space)", s, c.Type, c.Circ, c.DS, h, c.FoldAs)
 		}
 		if err == nil {
 			return vk.Errf("Hash(%q, %q, circular=%v, doubleStranded=%v) = %q without an error; the input must be rejected", s, c.Type, c.Circ, c.DS, h)
@@ -325,7 +325,7 @@ func TestSub_partition(t *testing.T) {
 // reject: unknown molecule types, every single letter outside the type's alphabet at every
 // position of short valid strings, double-stranded proteins.
 func TestSub_reject(t *testing.T) {
-	space := "11 unknown type strings x 9 sequences (the empty one, one letter, lower case, long, letters of no alphabet among them) x 4 flag pairs; every byte 0x00..0x7f that is not white space and 5 non-ASCII runes outside the alphabet inserted at every position of 3 short valid strings and of 2 strings holding the whole alphabet per type x 4 flag pairs; double-stranded proteins over all protein strings of length 0..2"
+	space := "11 unknown type strings x 9 sequences (the empty one, one letter, lower case, long, letters of no alphabet among them) x 4 flag pairs; every byte 0x00..0x7f that is not white space and 5 non-ASCII runes outside the alphabet inserted at every position of 3 short valid strings and of 2 strings holding the whole alphabet per type x 4 flag pairs; 10 kinds of white space at every position of the non-empty ones of those strings (rejected, or skipped so that the hash is that of the string without it); double-stranded proteins over all protein strings of length 0..2"
 	vk.RunEnum(t, subReject, space, true, func(yield func(Case) bool) {
 		for _, typ := range []string{"", "XNA", "TNA", "LIPID", "GLYCAN", "42", "?", "unknown", "DNA+PROTEIN", "\x00", "nucleic acid or protein"} {
 			// whatever the sequence: a usual one, the empty one, one letter, lower case, a long one, letters of no alphabet
@@ -364,6 +364,22 @@ func TestSub_reject(t *testing.T) {
 								continue
 							}
 							if !yield(Case{Seq: vk.SeqSpec{Lit: base[:pos] + in + base[pos:]}, Type: typ, Circ: fp[0], DS: fp[1], Reject: true}) {
+								return
+							}
+						}
+					}
+				}
+			}
+			// white space is no letter of any alphabet: it is rejected - or skipped, so that the hash is that of the
+			// letters around it. What it cannot be is hashed as a letter.
+			for _, in := range []string{" ", "\t", "\n", "\v", "\f", "\r", "\r\n", "\u0085", "\u00a0", "\u2028"} {
+				for _, base := range bases {
+					for pos := 0; pos <= len(base) && base != ""; pos++ {
+						for _, fp := range flagPairs {
+							if typ == "PROTEIN" && fp[1] {
+								continue
+							}
+							if !yield(Case{Seq: vk.SeqSpec{Lit: base[:pos] + in + base[pos:]}, Type: typ, Circ: fp[0], DS: fp[1], Reject: true, FoldAs: base}) {
 								return
 							}
 						}
